@@ -49,4 +49,18 @@ PROPS = {
         "components": {"real": REAL, "stub": STUB_COMMON},
         "assumptions": ["clock runs forward only (synctest cannot step it back)", "expiry granularity is one second (the documented unit)"],
     },
+    "C08": {
+        "level": "exploration",
+        "build": "plain",
+        "tiers": tiers(12000, 50, 200000, 900),
+        "exhaustive_claim": False,
+        "rule": "dependency graphs over 4-7 ids (facts, rules, property facts attached by SetProp/EnableRule) with deleteWith edges drawn as chains, fans, "
+                "cycles, self loops and dangling targets; deletions by RemFact/RemRule, by expiry (ttl + clock advance + observation), after reload, in "
+                "random orders; plus world enum3: every deleteWith graph over 3 facts (512 graphs incl. self loops) x all 6 deletion orders x both states, "
+                "enumerated completely in both tiers. After every operation GetFact on every id, a search battery, and the storage dump are compared with the "
+                "model's transitive closure; a worker death or hang during a cascade is the non-termination verdict. Non-trivial: a deletion removed "
+                "at least one dependent; distinct = distinct (operation, canonical model state) pairs.",
+        "components": {"real": REAL, "stub": STUB_COMMON},
+        "assumptions": ["what RemFact returns for an id that does not exist is not judged", "dependents of an item that has expired but was not yet observed are don't-cares until it is observed"],
+    },
 }
